@@ -60,3 +60,8 @@ Definition push_wfb (t : list (string * descr)) : bool :=
   forallb (fun cd => forallb (fun p : string * string * string * string =>
                                 let '(_, cc, ck, _) := p in mem ck (transient (table t cc)))
                              (d_push (snd cd))) t.
+
+(* what the user configured (the constructor parameters of a class that hold plain values — read off the live
+   signatures by the driver) must not be declared transient by the class's own __getstate__/__setstate__ *)
+Definition config_safeb (t : list (string * descr)) (req : list (string * list string)) : bool :=
+  forallb (fun ck => forallb (fun k => negb (mem k (transient (table t (fst ck))))) (snd ck)) req.
